@@ -2,6 +2,6 @@
    ExtrOcamlBasic only: bool/option/list/prod/unit/sumbool map to OCaml's; N, Z,
    positive, nat stay as extracted inductives. No Extract Constant. *)
 From Coq Require Import extraction.Extraction extraction.ExtrOcamlBasic.
-From HB Require Import Tpl.Compile.
+From HB Require Import Reg.RegOps.
 Extraction Language OCaml.
-Extraction "../ocaml/gen/hb_model.ml" hb_parse compile2 default_opts rule_name all_rules line_col peg_fuel map_insert.
+Extraction "../ocaml/gen/hb_model.ml" run_case rule_name all_rules map_insert.
